@@ -27,7 +27,7 @@ RULE += ('; also: replies dropped by the transport, broadcasts delivered by keyw
 ASSUMPTIONS = ['the RabbitMQ transport itself is replaced by an in-process communicator that follows its observable protocol (pv/comm.py)',
                'an exception raised by a handler may reach the sender wrapped in RemoteException']
 REQUIRED = ['handlers_ran', 'twin_compared', 'replies_compared', 'announcements_checked', 'intent/pause', 'intent/play', 'intent/kill', 'intent/status',
-            'via/rpc', 'via/bcast', 'wrap/raw', 'wrap/loop', 'broadcast_faults', 'after_termination_checks', 'in_step_deliveries', 'idle_deliveries', 'idle_thread_runs', 'dropped_replies', 'recreated_terminal_checks', 'unsubscribe_faults']
+            'via/rpc', 'via/bcast', 'wrap/raw', 'wrap/loop', 'broadcast_faults', 'after_termination_checks', 'in_step_deliveries', 'idle_deliveries', 'idle_thread_runs', 'dropped_replies', 'recreated_terminal_checks', 'unsubscribe_faults', 'own_subscription_handles']
 BOUNDS = {'quick': '6 programs, K<=2 messages (K=2 sampled 1/3), all broadcast fault points', 'thorough': '14 programs + thread-mode delivery (400 runs)'}
 MSGS = [['rpc', 'pause', 'rp'], ['rpc', 'play', None], ['rpc', 'kill', 'rk'], ['rpc', 'status', None], ['bcast', 'pause', 'bp'], ['bcast', 'play', None],
         ['bcast', 'kill', 'bk']]
@@ -48,6 +48,7 @@ class CommRun(lifecycle.Run):
     def _construct(self, cls, loop):
         self.base = comm.RmqShaped()
         self.base.keyword_delivery = bool(self.case.get('kwdeliver'))
+        self.base.own_ids = bool(self.case.get('own_ids'))
         for idx, kind in (self.case.get('bfail') or {}).items():
             self.base.fail_broadcast[int(idx)] = TOLERATED[kind]()
         if self.case.get('unsub_fault'):
@@ -214,6 +215,10 @@ def gen_cases(tier, seed):
             for i, plan in enumerate(plist):
                 yield {'kind': 'twin', 'name': name, 'program': prog, 'plan': [dict(e, act=list(e['act'])) for e in plan], 'wrap': wrap,
                        'drain': True, 'listener': False}
+            # a communicator that hands out subscription handles of its own
+            for i, plan in enumerate(plist[:: max(1, len(plist) // 12)]):
+                yield {'kind': 'twin', 'name': name, 'program': prog, 'plan': [dict(e, act=list(e['act'])) for e in plan], 'wrap': wrap,
+                       'drain': True, 'listener': False, 'own_ids': True}
             # broadcast faults: every transition index x tolerated kind
             ref = plans.reference(prog)
             ntrans = sum(1 for e in ref['events'] if e[0] == 'state')
@@ -369,6 +374,7 @@ def run_case(case):
         # broadcast -- its own announcements, which its filter passes over, included -- is answered with an exception
         viol.append(V('subscriber-raised', 'subscriber-raised:%s' % ex['receiver_errors'][0].split('(')[0], '%s: a broadcast subscriber raised: %s' % (label, ex['receiver_errors'][:2])))
     obs['subscriber_error_checks'] = 1
+    obs['own_subscription_handles'] = int(bool(case.get('own_ids')))
     if a['final']['terminated'] and ex['after']:
         obs['after_termination_checks'] = 1
         if ex['after'].get('rpc') != 'unroutable':
